@@ -318,13 +318,14 @@ def check_backconversion(col, arr, genome, dense, sig, case, is_bool=None, data=
     def rows():
         chroms = chrom_strings(data.chromosome)
         starts, stops = np.asarray(data.start).tolist(), np.asarray(data.stop).tolist()
-        vals = [True] * len(starts) if is_bool else np.asarray(data.value).tolist()
+        # interval records (no value column) mean True inside; bedGraph records carry their value
+        vals = np.asarray(data.value).tolist() if hasattr(data, "value") else [True] * len(starts)
         return list(zip(chroms, starts, stops, vals))
     rs = col.guarded(rows, sig + ":get_data:rows", case)
     if rs is None:
         return None
-    if is_bool:
-        col.check(not hasattr(data, "value"), sig + ":get_data:boolean-array-not-as-intervals", case, "got %r" % type(data).__name__)
+    if not is_bool:
+        col.check(hasattr(data, "value"), sig + ":get_data:values-lost", case, "got %r for a non-boolean array" % type(data).__name__)
     order = {n: i for i, (n, _) in enumerate(genome)}
     sizes = dict(genome)
     ok = all(c in order for c, _, _, _ in rs)
